@@ -45,3 +45,6 @@
 ;; ghost timerFn (Array Int Int)
 ;; ghost timerStopped (Array Int Bool)
 ;; ghost lastTimerStopResult Bool
+; host callbacks (C13)
+;; ghost lastRoundHeight Int
+;; ghost lastCommitHeight Int
